@@ -283,6 +283,8 @@ def embeddings(chk):
                         k1, d1 = classify_direction_value(up_slots, set())
                         ok = k1 == "normalised" and [strip_cast(c) for c in d1[:2]] == orig and d1[2] == ev.ZERO
                         detail = "3-D direction normalises (p.x, p.y, 0)"
+                        if not ok and up_slots[:2] == orig and up_slots[2] == ev.ZERO:
+                            ok, detail = True, "3-D direction stores (p.x, p.y, 0) exactly (a planar unit vector embedded is a unit vector)"
                     else:
                         ok = back == orig and up_slots[:2] == orig and up_slots[2] == ev.ZERO
                         detail = "slots preserved exactly; z = 0"
